@@ -1,4 +1,5 @@
 import DiscretModel.Lemmas.DailyLogSpec
+import DiscretModel.Lemmas.DailyLogPending
 /-
 Schedules of writes, end-of-batch mark writes and recomputation points over (content, table, pending marks).
 -/
@@ -29,12 +30,12 @@ def St.step (d : Defects) (s : St) : Step → St
   | .compute => { s with log := recompute d s.sigs s.log }
 
 /-- the marking discipline: every `(room, entity, day)` whose stored signatures change is marked by the
-    write that changes it (or is already marked by an earlier write of the batch); a recomputation is
-    processed in a batch of its own (nothing pending) -/
+    write that changes it (or is already marked by an earlier write of the batch). A recomputation may be
+    processed anywhere, also in the middle of a batch whose marks are not written yet. -/
 def Step.ok (s : St) : Step → Prop
   | .write sigs' marks => ∀ r e d, sigs' r e d ≠ s.sigs r e d → pendOf (s.pend ++ marks) r e d
   | .commit => True
-  | .compute => s.pend = []
+  | .compute => True
 
 def run (d : Defects) : St → List Step → St
   | s, [] => s
@@ -82,10 +83,7 @@ theorem step_winv {s : St} {x : Step} (h : WInv s.sigs (pendOf s.pend) s.log) (h
     intro r e dd hp; exact Or.inr hp
   | compute =>
     simp only [St.step]
-    have hp : s.pend = [] := hok
-    have h0 : WInv s.sigs noPending s.log := h.mono (by
-      intro r e dd x; rw [hp] at x; simp [pendOf] at x)
-    exact (recompute_isLogOf h1 h2 h3 h4 h0).winv.mono (fun _ _ _ x => absurd x (fun z => z))
+    exact recompute_pending h1 h2 h3 h4 h
 
 include h1 h2 h3 h4 in
 theorem run_winv (steps : List Step) {s : St} (h : WInv s.sigs (pendOf s.pend) s.log) (hok : runOk d s steps) :
